@@ -6,7 +6,18 @@ The driver evaluates the mechanism model (zero padding, circular correlation, fi
 decode) and the specification (exact linear cross-correlation over the lag box: its maximum, the
 lag of the maximum and the largest value among the other lags).  A part of a case is compared only
 when the exact maximum is well separated (relative margin >= 5 %) and sits at the true translation;
-otherwise the premise of the property does not hold for that pair and the part is masked."""
+otherwise the premise of the property does not hold for that pair and the part is masked.
+
+Scale classes: a case may carry `scale` = {"pow2": k} (scene * 2**k, exact) or {"dec": "1e-9"} (scene * float("1e-9"),
+rounded once per pixel); the driver always receives the exact rational value of every float64 pixel that pewlib
+receives, whatever the scale.
+
+Long axes: a pair whose model evaluation would cost more than LONG_COST products (transform length far above 1024)
+goes through `c12.registerLong`: the exact correlation over the WHOLE lag box comes from the driver's integer array
+twin, and the model's own `xcorr` / `xcorrCirc` are evaluated at the decisive lags (maximum, runner-up, true
+translation, the implementation's answer, the mechanism's answer, corners, zero lag, a spread of others) and must
+equal the twin there; on every pair below the limit the driver evaluates model and twin over the whole lag box and
+refuses to answer if they differ."""
 import itertools
 import math
 import sys
@@ -20,6 +31,10 @@ from harness.core import Prop, outcome, unrat
 ANCHORS = ["top left", "top right", "bottom left", "bottom right", "center"]
 MARGIN = Fraction(1, 20)
 MASK = "premise-fails"
+LONG_COST = 1_500_000  # products of the model (|s|^2 + |s| |b|) above which the array twin route is used
+POW2 = [-40, -30, 30, 60]
+DEC = ["1e-9", "1e9"]
+SAFE_LO, SAFE_HI = 2.0 ** -200, 2.0 ** 200  # pixel magnitudes for which no product under/overflows in float64
 
 
 def fhex(v) -> str:
@@ -36,25 +51,50 @@ def qhex(j) -> str:
     return "nan" if q is None else fhex(float(q))
 
 
-def scene_array(sc):
-    """exact float64 array: data / 2**q"""
-    return (np.array(sc["data"], dtype=np.float64) / float(2 ** sc["q"])).reshape(sc["shape"])
+def scale_factor(scale):
+    """the float64 factor of a scale description (None: 1.0)"""
+    if scale is None:
+        return 1.0
+    if "pow2" in scale:
+        return math.ldexp(1.0, int(scale["pow2"]))
+    return float(scale["dec"])
+
+
+def scale_name(scale):
+    return "2^%d" % scale["pow2"] if "pow2" in scale else str(scale["dec"])
+
+
+def scene_array(sc, scale=None):
+    """float64 array: (data / 2**q, exact) * factor (one rounding per pixel unless the factor is a power of two)"""
+    arr = (np.array(sc["data"], dtype=np.float64) / float(2 ** sc["q"])).reshape(sc["shape"])
+    f = scale_factor(scale)
+    return arr if f == 1.0 else arr * np.float64(f)
 
 
 def cut(arr, w):
     return arr[tuple(slice(o, o + s) for o, s in zip(w["off"], w["shape"]))].copy()
 
 
-def img_json(arr, q):
-    """exact rationals of a float array whose entries are multiples of 2**-q"""
-    flat = arr.ravel()
-    den = 2 ** q
+def img_json(arr):
+    """the exact rational value of every (finite) float64 entry"""
     data = []
-    for v in flat:
-        n = int(round(float(v) * den))
-        assert n / den == float(v)
-        data.append(n if q == 0 else [str(n), str(den)])
+    for v in arr.ravel().tolist():
+        n, d = v.as_integer_ratio()
+        data.append(n if d == 1 and abs(n) < 2 ** 50 else [str(n), str(d)])
     return {"shape": list(arr.shape), "data": data}
+
+
+def float_safe(arr):
+    """finite, and every non-zero magnitude inside [2**-200, 2**200]"""
+    if not np.isfinite(arr).all():
+        return False
+    nz = np.abs(arr[arr != 0])
+    return nz.size == 0 or (float(nz.min()) >= SAFE_LO and float(nz.max()) <= SAFE_HI)
+
+
+def model_cost(sa, sb):
+    s = int(np.prod([x + y - 1 for x, y in zip(sa, sb)], dtype=object))
+    return s * s + s * int(np.prod(sb, dtype=object))
 
 
 def valid(case):
@@ -64,6 +104,14 @@ def valid(case):
     d = len(sc["shape"])
     if len(sc["data"]) != int(np.prod(sc["shape"])):
         return False
+    scale = case.get("scale")
+    if scale is not None:
+        try:
+            f = scale_factor(scale)
+        except (KeyError, ValueError, OverflowError, TypeError):
+            return False
+        if not (math.isfinite(f) and f > 0):
+            return False
     for w in (A, B):
         if len(w["off"]) != d or len(w["shape"]) != d:
             return False
@@ -77,18 +125,31 @@ class C12(Prop):
     id = "C12"
     anchored = ["src/pewlib/process/register.py"]
     cases = {"quick": 700, "thorough": 12000}
-    rule = ("two windows (sub-window, super-window or partially overlapping; 1-3 D; every side drawn independently, "
+    rule = ("two windows (sub-window, super-window, partially overlapping, or equally shaped at a non-zero translation; "
+            "1-3 D; every side drawn independently, "
             "odd and even, incl. 1 and 2; translations of either sign inside the lag box) of one generated scene "
-            "(signed / sparse / blob / positive / real-valued dyadic texture); non-trivial = the exact cross-correlation "
+            "(signed / sparse / blob / positive / real-valued dyadic texture); a fifth of the pairs at another scale "
+            "(integer textures * 2^k, k in -40 -30 +30 +60, exact; real texture * 1e-9 / 1e9), half of those equally shaped "
+            "and displaced; long axes (transform length a+b-1 in 1100..1900 or 2100..2700, 1-D, or 2-D with a short second "
+            "axis; both signs; equal and very unequal sizes): 10 fixed pairs on every run plus ~0.4 % (quick) / 0.8 % + 24 "
+            "(thorough) of the generated pairs; non-trivial = the exact cross-correlation "
             "has a maximum >= 5 % above every other lag at the true translation, so that the pair is compared; "
             "anchors: every shape pair <= 12 x 12 with the five anchors on every run, plus random larger shapes; "
             "distinct by canonical case hash")
     trusted = ["np.fft.rfftn/irfftn(s=...) compute the circular cross-correlation of the zero padded arrays "
                "(correlation theorem) with an error far below the 5 % margin demanded of compared cases",
-               "np.pad / np.argmax (first maximum) / np.unravel_index / np.where as documented"]
+               "np.pad / np.argmax (first maximum) / np.unravel_index / np.where as documented",
+               "pairs whose model evaluation would need more than 1.5e6 products (long axes): the exact correlation over the "
+               "whole lag box (maximum, runner-up, first maximum of the circular array) is computed by the driver's integer "
+               "array twin (PewDriver/C12.lean: fastLin / fastCirc, not covered by a theorem); the twin is compared with the "
+               "model's xcorr and xcorrCirc at the decisive lags of each such pair (maximum, runner-up, true translation, the "
+               "implementation's answer, the mechanism's answer, corners, zero lag, 12 spread lags) and with the whole model "
+               "output on every pair below the limit (several thousand calls per run); any difference stops the run (exit 2)"]
     assumptions = ["a pair whose exact cross-correlation maximum leads the runner-up by < 5 % (or by < 1e-9 of the "
                    "product of the 1-norms), or whose maximum is not at the true translation, is outside the property's "
-                   "premise ('unique, well-separated maximum') and is masked, never a violation"]
+                   "premise ('unique, well-separated maximum') and is masked, never a violation",
+                   "a scaled scene with a non-zero pixel magnitude outside [2^-200, 2^200] (products could under/overflow in "
+                   "float64) is not compared (undetermined)"]
 
     # ------------------------------------------------------------------ generation
     def gen_scene(self, rng, shape, kind):
@@ -114,49 +175,119 @@ class C12(Prop):
             data = [rng.randint(-8000, 8000) for _ in range(size)]
         return {"shape": list(shape), "data": data, "q": q}
 
-    def generate(self, rng, tier):
-        if rng.random() < 0.04:
-            a = [rng.randint(1, 60), rng.randint(1, 60)]
-            bs = [[rng.randint(1, 60), rng.randint(1, 60)] for _ in range(40)]
-            return {"kind": "anchors", "a": a, "bs": bs}
-        d = rng.choice([1, 1, 2, 2, 2, 3])
-        hi = {1: 24, 2: 9, 3: 5}[d]
-        rel = rng.choice(["sub", "sub", "super", "overlap", "overlap", "far"])
-        sa, sb, t = [], [], []
-        for _ in range(d):
-            a = rng.choice([1, 2, 3]) if rng.random() < 0.15 else rng.randint(1, hi)
-            b = rng.choice([1, 2, 3]) if rng.random() < 0.15 else rng.randint(1, hi)
-            if rel == "sub":  # B inside A
-                b = min(a, b)
-                l = rng.randint(0, a - b)
-            elif rel == "far":  # a small B near the far end of A: lags beyond ceil(s/2)
-                b = max(1, min(b, a // 3))
-                l = rng.randint(max(0, a - b - 1), a - b)
-            elif rel == "super":  # A inside B
-                a = min(a, b)
-                l = -rng.randint(0, b - a)
-            else:
-                # keep a substantial overlap most of the time
-                if rng.random() < 0.7:
-                    lo, up = -((b - 1) // 2), (a - 1) // 2
-                else:
-                    lo, up = -(b - 1), a - 1
-                l = rng.randint(lo, up)
-            sa.append(a)
-            sb.append(b)
-            t.append(l)
+    def pick_scale(self, rng, kind):
+        """integer textures: * 2**k (exact); real texture: * 1e-9 / 1e9 (rounded), sometimes * 2**k"""
+        if kind == "real" and rng.random() < 0.75:
+            return {"dec": rng.choice(DEC)}
+        return {"pow2": rng.choice(POW2)}
+
+    def assemble(self, rng, sa, sb, t, kind, rel, scale=None, extra=None):
+        """scene around the union of A (origin) and B (displaced by t), windows cut from it"""
+        d = len(sa)
         org = [min(0, l) for l in t]
         end = [max(a, l + b) for a, b, l in zip(sa, sb, t)]
         # some margin of scene around the union, so that windows are not the whole scene
         pad_lo = [rng.randint(0, 1) for _ in range(d)]
         pad_hi = [rng.randint(0, 1) for _ in range(d)]
         shape = [e - o + p + r for o, e, p, r in zip(org, end, pad_lo, pad_hi)]
-        kind = rng.choice(["signed", "signed", "sparse", "blobs", "positive", "real", "real"])
         scene = self.gen_scene(rng, shape, kind)
         offA = [-o + p for o, p in zip(org, pad_lo)]
         offB = [oa + l for oa, l in zip(offA, t)]
-        return {"kind": "reg", "texture": kind, "rel": rel, "scene": scene,
-                "A": {"off": offA, "shape": sa}, "B": {"off": offB, "shape": sb}}
+        case = {"kind": "reg", "texture": kind, "rel": rel, "scene": scene,
+                "A": {"off": offA, "shape": list(sa)}, "B": {"off": offB, "shape": list(sb)}}
+        if scale is not None:
+            case["scale"] = scale
+        if extra:
+            case.update(extra)
+        return case
+
+    def axis(self, rng, rel, a, b):
+        """sizes and translation of one axis for a relation; a, b are the proposed sides"""
+        if rel == "sub":  # B inside A
+            b = min(a, b)
+            l = rng.randint(0, a - b)
+        elif rel == "far":  # a small B near the far end of A: lags beyond ceil(s/2)
+            b = max(1, min(b, a // 3))
+            l = rng.randint(max(0, a - b - 1), a - b)
+        elif rel == "super":  # A inside B
+            a = min(a, b)
+            l = -rng.randint(0, b - a)
+        else:
+            if rel == "equal":  # two equally shaped windows
+                b = a
+            # keep a substantial overlap most of the time
+            if rng.random() < 0.7:
+                lo, up = -((b - 1) // 2), (a - 1) // 2
+            else:
+                lo, up = -(b - 1), a - 1
+            l = rng.randint(lo, up)
+        return a, b, l
+
+    def gen_long(self, rng, tier):
+        """one axis whose transform length a+b-1 is far above 1024 (or above 2048); 1-D, or 2-D with a short other axis"""
+        d = 1 if rng.random() < 0.7 else 2
+        if d == 1:
+            S = rng.randint(1100, 1900) if rng.random() < 0.55 else rng.randint(2100, 2700)
+        else:
+            S = rng.randint(1100, 1500) if rng.random() < 0.7 else rng.randint(2100, 2300)
+        rel = rng.choice(["overlap", "overlap", "equal", "sub", "super", "far"])
+        if rel in ("overlap", "equal"):
+            a = (S + 1) // 2 + (0 if rel == "equal" else rng.randint(-S // 6, S // 6))
+            b = S + 1 - a
+        elif rel == "super":
+            a = rng.randint(16, 200)
+            b = S + 1 - a
+        else:
+            b = rng.randint(16, 200)
+            a = S + 1 - b
+        a, b, l = self.axis(rng, rel, a, b)
+        if rel == "equal" and l == 0:
+            l = rng.choice([-1, 1]) * rng.randint(1, (a - 1) // 2)
+        sa, sb, t = [a], [b], [l]
+        if d == 2:
+            x, y, m = self.axis(rng, rel, rng.randint(1, 3), rng.randint(1, 3))
+            pos = rng.randrange(2)
+            sa.insert(pos, x)
+            sb.insert(pos, y)
+            t.insert(pos, m)
+        kind = rng.choice(["signed", "signed", "sparse", "positive", "real"])
+        scale = None
+        if rng.random() < 0.25 and (d == 1 or kind != "real"):
+            scale = self.pick_scale(rng, kind)
+            if d == 2 and "dec" in scale:
+                scale = {"pow2": rng.choice(POW2)}
+        return self.assemble(rng, sa, sb, t, kind, rel, scale, {"cls": "long"})
+
+    def generate(self, rng, tier):
+        if rng.random() < 0.04:
+            a = [rng.randint(1, 60), rng.randint(1, 60)]
+            bs = [[rng.randint(1, 60), rng.randint(1, 60)] for _ in range(40)]
+            return {"kind": "anchors", "a": a, "bs": bs}
+        if rng.random() < (0.004 if tier == "quick" else 0.008):
+            return self.gen_long(rng, tier)
+        d = rng.choice([1, 1, 2, 2, 2, 3])
+        hi = {1: 24, 2: 9, 3: 5}[d]
+        kind = rng.choice(["signed", "signed", "sparse", "blobs", "positive", "real", "real"])
+        scale = self.pick_scale(rng, kind) if rng.random() < 0.2 else None
+        if scale is not None and rng.random() < 0.5:
+            rel = "equal"  # equal shapes, non-zero translation, at every scale
+        else:
+            rel = rng.choice(["sub", "sub", "super", "overlap", "overlap", "far", "equal"])
+        sa, sb, t = [], [], []
+        for _ in range(d):
+            a = rng.choice([1, 2, 3]) if rng.random() < 0.15 else rng.randint(1, hi)
+            b = rng.choice([1, 2, 3]) if rng.random() < 0.15 else rng.randint(1, hi)
+            a, b, l = self.axis(rng, rel, a, b)
+            sa.append(a)
+            sb.append(b)
+            t.append(l)
+        if rel == "equal" and not any(t):
+            # equal shapes are about a non-zero translation (zero translation is the self-registration part)
+            ax = [i for i in range(d) if sa[i] > 1]
+            if ax:
+                i = rng.choice(ax)
+                t[i] = rng.choice([-1, 1]) * rng.randint(1, max(1, (sa[i] - 1) // 2))
+        return self.assemble(rng, sa, sb, t, kind, rel, scale)
 
     def targeted(self, tier):
         # anchors: every shape pair <= 12 x 12, the five anchors
@@ -187,6 +318,30 @@ class C12(Prop):
         for o in ([0, 0], [0, 6], [4, 0], [4, 6], [2, 3]):
             yield {"kind": "reg", "texture": "signed", "rel": "sub", "scene": sc,
                    "A": {"off": [0, 0], "shape": [7, 10]}, "B": {"off": o, "shape": [3, 4]}}
+        # every scale: equally shaped windows at a non-zero translation (1-3 D), and a sub-window
+        rng = core.case_rng(0, self.id, "targeted-scale", 0)
+        for scale, kind in ([({"pow2": k}, "signed") for k in POW2] + [({"pow2": k}, "sparse") for k in (POW2[0], POW2[-1])]
+                            + [({"dec": x}, "real") for x in DEC]):
+            for sa, t in (([16], [-5]), ([7, 8], [2, -3]), ([4, 5, 4], [1, -2, 0])):
+                yield self.assemble(rng, sa, sa, t, kind, "equal", scale)
+            yield self.assemble(rng, [9, 6], [3, 4], [5, 1], kind, "sub", scale)
+        # long axes: transform length far above 1024 / above 2048, both signs, equal and unequal sizes, 1-D first
+        rng = core.case_rng(0, self.id, "targeted-long", 0)
+        for sa, sb, t, kind, rel in (
+                ([700], [700], [-400], "signed", "equal"),
+                ([640], [600], [250], "real", "overlap"),
+                ([1200], [1100], [-500], "signed", "overlap"),
+                ([1500], [40], [1400], "sparse", "far"),
+                ([40], [1500], [-1300], "signed", "super"),
+                ([1024], [1025], [-1], "signed", "overlap"),   # s = 2048 exactly
+                ([513], [513], [100], "signed", "equal"),      # s = 1025, the first length above 1024
+                ([700, 3], [700, 3], [-300, 1], "signed", "equal"),
+                ([2, 650], [3, 560], [-1, -200], "signed", "overlap")):
+            yield self.assemble(rng, sa, sb, t, kind, rel, None, {"cls": "long"})
+        yield self.assemble(rng, [800], [800], [-350], "signed", "equal", {"pow2": -40}, {"cls": "long"})
+        if tier == "thorough":
+            for i in range(24):
+                yield self.gen_long(core.case_rng(0, self.id, "targeted-long", 1 + i), tier)
 
     def search_extra(self, tier):
         rng = core.case_rng(1, self.id, "search", 0)
@@ -199,12 +354,27 @@ class C12(Prop):
                            "A": {"off": [-lo], "shape": [a]}, "B": {"off": [-lo + t], "shape": [b]}}
 
     # ------------------------------------------------------------------ evaluation
-    def reg_part(self, ctx, register, x, y, q, want):
-        """one call of fft_register_offset(x, y) against the driver; returns (impl, model, spec, determined)"""
-        rep = ctx.driver.call("c12.register", a=img_json(x, q), b=img_json(y, q))
+    def reg_part(self, ctx, register, x, y, want):
+        """one call of fft_register_offset(x, y) against the driver; returns (impl, model, spec, determined, reply)"""
+        long = model_cost(x.shape, y.shape) > LONG_COST
+        jx, jy = img_json(x), img_json(y)
+        n1 = Fraction(float(np.abs(x).sum())) * Fraction(float(np.abs(y).sum()))
+        try:
+            res = register.fft_register_offset(x, y)
+            impl = [int(v) for v in res]
+        except Exception as e:
+            impl = {"raises": type(e).__name__, "msg": str(e)[:200]}
+        if long:
+            # whole lag box by the array twin; the model itself at the decisive lags, among them the true
+            # translation and the implementation's answer
+            probe = [list(want)] + ([impl] if isinstance(impl, list) and len(impl) == x.ndim and impl != list(want) else [])
+            rep = ctx.driver.call("c12.registerLong", a=jx, b=jy, probe=probe)
+            if rep["lag"] == want and (rep["asked"][0] is None or unrat(rep["asked"][0]) != unrat(rep["max"])):
+                raise core.InternalError("c12.registerLong: the model's xcorr at the true lag is not the reported maximum")
+        else:
+            rep = ctx.driver.call("c12.register", a=jx, b=jy)
         mx = unrat(rep["max"])
         ru = unrat(rep["runner"])
-        n1 = Fraction(float(np.abs(x).sum())) * Fraction(float(np.abs(y).sum()))
         if ru is None:
             determined = True  # a single lag: nothing to separate
         else:
@@ -212,11 +382,6 @@ class C12(Prop):
         at_truth = rep["lag"] == want
         if not (determined and at_truth):
             return MASK, MASK, MASK, False, rep
-        try:
-            res = register.fft_register_offset(x, y)
-            impl = [int(v) for v in res]
-        except Exception as e:
-            impl = {"raises": type(e).__name__, "msg": str(e)[:200]}
         return impl, rep["model"], want, True, rep
 
     def evaluate(self, case, ctx):
@@ -227,8 +392,11 @@ class C12(Prop):
         if not valid(case):
             return outcome("invalid", "invalid", "invalid", undetermined=True, hyp=False)
         sc = case["scene"]
-        q = sc["q"]
-        scene = scene_array(sc)
+        scale = case.get("scale")
+        scene = scene_array(sc, scale)
+        if not float_safe(scene):
+            # a scale that leaves the range in which float64 products neither overflow nor underflow
+            return outcome("float-range", "float-range", "float-range", undetermined=True, hyp=False)
         A, B = case["A"], case["B"]
         d = scene.ndim
         a, b = cut(scene, A), cut(scene, B)
@@ -243,7 +411,7 @@ class C12(Prop):
             parts.append(("bb", b, b, zero))
         det = {}
         for name, x, y, want in parts:
-            impl[name], model[name], spec[name], det[name], _ = self.reg_part(ctx, register, x, y, q, want)
+            impl[name], model[name], spec[name], det[name], _ = self.reg_part(ctx, register, x, y, want)
         # register, then merge at the estimated offset
         if det["ab"] and isinstance(impl["ab"], list):
             try:
@@ -251,7 +419,7 @@ class C12(Prop):
                 impl["merge"] = {"shape": list(res.shape), "data": [fhex(v) for v in res.ravel()]}
             except Exception as e:
                 impl["merge"] = {"raises": type(e).__name__, "msg": str(e)[:200]}
-            rep = ctx.driver.call("c12.merge", scene=img_json(scene, q), offA=A["off"], offB=B["off"],
+            rep = ctx.driver.call("c12.merge", scene=img_json(scene), offA=A["off"], offB=B["off"],
                                   shapeA=A["shape"], shapeB=B["shape"])
             model["merge"] = {"shape": rep["shape"], "data": [qhex(v) for v in rep["model"]]}
             spec["merge"] = {"shape": rep["shape"], "data": [qhex(v) for v in rep["spec"]]}
@@ -282,6 +450,27 @@ class C12(Prop):
                 feats.add("one-pixel-overlap-on-an-axis")
             if det.get("aa") or det.get("bb"):
                 feats.add("self-registration-compared")
+            equal_moved = A["shape"] == B["shape"] and any(t)
+            if equal_moved:
+                feats.add("equal-shapes:non-zero-translation")
+            if scale is not None:
+                feats.add("scale:" + scale_name(scale))
+                feats.add("scale:tiny" if scale_factor(scale) < 1 else "scale:huge")
+                if equal_moved:
+                    feats.add("scale:%s:equal-shapes:non-zero-translation" % ("tiny" if scale_factor(scale) < 1 else "huge"))
+            if max(s) > 1024:
+                for l, n in zip(t, s):
+                    if n > 1024:
+                        feats.add("long-axis:s>2048" if n > 2048 else "long-axis:1024<s<=2048")
+                        feats.add("long-axis:negative-translation" if l < 0 else
+                                  "long-axis:positive-translation" if l > 0 else "long-axis:zero-translation")
+                        if n & (n - 1):
+                            feats.add("long-axis:s-not-a-power-of-two")
+                feats.add(f"long-axis:ndim{d}")
+                if scale is not None:
+                    feats.add("long-axis:scaled")
+            if model_cost(A["shape"], B["shape"]) > LONG_COST:
+                feats.add("route:array-twin+model-at-decisive-lags")
         elif det.get("aa") or det.get("bb") or det["ba"]:
             feats.add("only-self-or-swapped-compared")
         none_det = not any(det.values())
@@ -320,6 +509,9 @@ class C12(Prop):
                     yield {**case, "bs": [b]}
             return
         d = len(case["scene"]["shape"])
+        costly = model_cost(case["A"]["shape"], case["B"]["shape"]) > LONG_COST
+        if case.get("scale") is not None:
+            yield {k: v for k, v in case.items() if k != "scale"}
         # crop the scene to the bounding box of the two windows
         A, B, sc = case["A"], case["B"], case["scene"]
         lo = [min(x, y) for x, y in zip(A["off"], B["off"])]
@@ -333,20 +525,26 @@ class C12(Prop):
         for key in ("A", "B"):
             w = case[key]
             for ax in range(d):
-                if w["shape"][ax] > 1:
-                    sh = list(w["shape"])
-                    sh[ax] -= 1
-                    c1 = {**case, key: {"off": w["off"], "shape": sh}}
-                    off = list(w["off"])
-                    off[ax] += 1
-                    c2 = {**case, key: {"off": off, "shape": sh}}
-                    for c in (c1, c2):
-                        if valid(c):
-                            yield c
+                # long sides lose a half, a quarter, an eighth, a sixteenth at either end; single pixels only where
+                # an evaluation is cheap (a long pair costs ~0.5 s per candidate and stays long while it fails)
+                n = w["shape"][ax]
+                steps = [k for k in (n // 2, n // 4, n // 8, n // 16) if k > 1] + ([] if costly and n > 64 else [1])
+                for k in steps:
+                    if w["shape"][ax] > k:
+                        sh = list(w["shape"])
+                        sh[ax] -= k
+                        c1 = {**case, key: {"off": w["off"], "shape": sh}}
+                        off = list(w["off"])
+                        off[ax] += k
+                        c2 = {**case, key: {"off": off, "shape": sh}}
+                        for c in (c1, c2):
+                            if valid(c):
+                                yield c
         data = case["scene"]["data"]
-        for i, v in enumerate(data):
-            if v != 0:
-                yield {**case, "scene": {**case["scene"], "data": data[:i] + [0] + data[i + 1:]}}
+        if len(data) <= 400:
+            for i, v in enumerate(data):
+                if v != 0:
+                    yield {**case, "scene": {**case["scene"], "data": data[:i] + [0] + data[i + 1:]}}
 
 
 PROP = C12()
